@@ -25,4 +25,5 @@ PROPS = {
     "C08": _p(4000, 60000),
     "C09": _p(4000, 60000),
     "C19": _p(1500, 20000),
+    "C12": _p(4000, 60000),
 }
